@@ -812,6 +812,10 @@ class TextXMetaModel(DebugPrinter):
                 def _pre_ref_resolution_callback(other_model):
                     from textx.scoping import GlobalModelRepository
 
+                    if not hasattr(other_model, "_tx_metamodel"):
+                        # A plain Python value (e.g. the root rule is a base
+                        # type) can not take part in a repository.
+                        return
                     filename = other_model._tx_filename
                     assert filename
                     # print("METAMODEL PRE-CALLBACK => {}".format(filename))
